@@ -4,6 +4,7 @@ This service provides comprehensive color validation, lookup, and RTF generation
 capabilities using the full 657-color table from r2rtf.
 """
 
+import contextvars
 from collections.abc import Mapping, Sequence
 from typing import Any
 
@@ -21,8 +22,24 @@ class ColorValidationError(ValueError):
     pass
 
 
+# Colors of the document currently being encoded. Held in a context variable so
+# that concurrent encodes (threads, async tasks) never see each other's palette.
+_document_colors_var: contextvars.ContextVar[Sequence[str] | None] = (
+    contextvars.ContextVar("rtflite_document_colors", default=None)
+)
+
+
 class ColorService:
     """Service for color validation, lookup, and RTF generation operations."""
+
+    @property
+    def _current_document_colors(self) -> Sequence[str] | None:
+        """Context for current document being encoded (per thread / task)."""
+        return _document_colors_var.get()
+
+    @_current_document_colors.setter
+    def _current_document_colors(self, value: Sequence[str] | None) -> None:
+        _document_colors_var.set(value)
 
     def __init__(self):
         """Initialize the color service with the comprehensive color table."""
@@ -30,9 +47,6 @@ class ColorService:
         self._name_to_type = name_to_type
         self._name_to_rgb = name_to_rgb
         self._name_to_rtf = name_to_rtf
-        self._current_document_colors = (
-            None  # Context for current document being encoded
-        )
 
     def validate_color(self, color: str) -> bool:
         """Validate if a color name exists in the color table.
